@@ -78,6 +78,30 @@ func agree(c *h.Ctx, route string, it ast.ItemNode, want *ref.Node, reps int) st
 			c.Ops(2)
 		}
 	}
+	// what a caller does with the returned slices must not show up in the next observation
+	if len(vars) > 0 {
+		scr := it.Variables()
+		for i := range scr {
+			scr[i] = "scribbled"
+		}
+		if cap(scr) > len(scr) {
+			scr = append(scr, "extra")
+		}
+		if v2 := it.Variables(); !eqStrings(v2, vars) {
+			c.Fail("variables-slice-is-shared-with-the-caller", desc, fmt.Sprintf("%v after the caller overwrote the previously returned slice (was %v)", v2, vars))
+			return "bad"
+		}
+	}
+	if len(b) > 0 {
+		sb := it.ToBytes()
+		for i := range sb {
+			sb[i] ^= 0xFF
+		}
+		if b2 := it.ToBytes(); string(b2) != string(b) {
+			c.Fail("bytes-slice-is-shared-with-the-caller", desc, fmt.Sprintf("%x after the caller overwrote the previously returned slice (was %x)", truncB(b2, 40), truncB(b, 40)))
+			return "bad"
+		}
+	}
 	names, cnt := printedFacts(str)
 	// every unfilled variable exactly once, in printed order ("..." lines match "..."/"...[k]")
 	if len(names) != len(vars) {
@@ -274,6 +298,54 @@ func init() {
 						}
 					}
 					c.Case(0, true, out)
+				}})
+			// names the printed form cannot carry as ONE name (blanks, brackets, dots...): refused, or the observers still agree
+			nsym := []byte{'a', 'Z', '_', '0', '[', ']', '.', ' ', '>', '"'}
+			var hostile []string
+			var gen func(p string, n int)
+			gen = func(p string, n int) {
+				if p != "" {
+					hostile = append(hostile, p)
+				}
+				if n == 0 {
+					return
+				}
+				for _, x := range nsym {
+					gen(p+string(x), n-1)
+				}
+			}
+			gen("", 3)
+			hostile = append(hostile, "a b", "flag[0] flag[1]", "x y", "a[0] ", " a", "a\tb", "a\nb", "v0 v1 v2", "a[0]b", "a>", "<a", "a.b", "...", "...[0]", "a[0")
+			hk := []ref.Kind{ref.U1, ref.F8, ref.BOOLEAN, ref.B, ref.A, ref.L}
+			sp = append(sp, h.Space{Name: "hostile-variable-names", Count: uint64(len(hostile) * len(hk)),
+				Describe: func(i uint64) interface{} {
+					return fmt.Sprintf("name %q in %s", hostile[i/uint64(len(hk))], hk[i%uint64(len(hk))])
+				},
+				Run: func(c *h.Ctx, i uint64) {
+					name, k := hostile[i/uint64(len(hk))], hk[i%uint64(len(hk))]
+					var n *ref.Node
+					switch k {
+					case ref.A:
+						n = ref.AsciiVar(name, 0, -1)
+					case ref.L:
+						n = ref.List(ref.Uints(ref.U1, 1), ref.Var(name), &ref.Node{Kind: ref.I2, Elems: []ref.Elem{{Var: "y"}}})
+					default:
+						n = &ref.Node{Kind: k, Elems: []ref.Elem{{U: 1, F: 1, T: true}, {Var: name}}}
+					}
+					if k == ref.L && validEllipsis(name) {
+						n.Children[1] = ref.Ell(name)
+					}
+					it, pan := tryItem(func() ast.ItemNode { return Build(n) })
+					c.Ops(1)
+					if pan != "" {
+						c.Case(0, true, "refused")
+						return
+					}
+					if k == ref.B && strings.HasPrefix(name, "0b") {
+						c.Case(0, false, "binary-literal")
+						return
+					}
+					c.Case(0, true, agree(c, "hostile-name", it, n, 2))
 				}})
 			// the same name twice anywhere in a tree must be refused by the factories (every pair of variable positions)
 			ds := NewTreeScope(atoms, 3, 3, 3)
